@@ -8,6 +8,9 @@
 //!   sabot (needs load=1): 1 non-PNG image in the source, 2 data file deleted after load, 3 data file replaced
 //!               by a directory after load, 4 image truncated after load, 5 = 1 and the cell already forced
 //!   pre: 0 absent, 1 empty dir, 2 another larger UFO, 3 nested junk, 4 plain file, 5 the font's own source
+//!   round 6: sab=<d|i><index><x|r|t>.<..> (store files deleted / replaced by a directory / truncated on disk after the
+//!               load, before any access), retry=<n> (the same save tried n times before), tsp=3|4 (target spelled through a
+//!               symlinked parent / relative to the parent), stores=4|5 (size classes up to 3 MiB)
 //!   edits: gi.<n> gr.<n> lk nl.<n> di.<hexkey>.<c> dr.<hexkey> ii.<hexkey>.<c> ir.<hexkey> dg.<hexkey>
 use crate::common::*;
 use crate::fsfam::*;
@@ -54,6 +57,28 @@ pub fn store_set(id: u32) -> (Vec<(&'static str, Vec<u8>)>, Vec<(&'static str, V
             ],
             vec![(".thumb.png", png("thumb")), ("normal.png", png("n")), (".png", png("dotpng"))],
         ),
+        4 => {
+            // size classes of lazily read files (round 6): 0, 1, 4 KiB, 64 KiB + 1, 1 MiB + 1, 3 MiB; one large image
+            let mut img = png("big");
+            img.extend(blob(1024 * 1024 + 1, 5));
+            (
+                vec![
+                    ("s0.bin", vec![]),
+                    ("s1.bin", blob(1, 1)),
+                    ("s4k.bin", blob(4096, 2)),
+                    ("s64k1.bin", blob(64 * 1024 + 1, 3)),
+                    ("big/s1m1.bin", blob(1024 * 1024 + 1, 4)),
+                    ("s3m.bin", blob(3 * 1024 * 1024, 6)),
+                ],
+                vec![("big.png", img), ("small.png", png("small"))],
+            )
+        }
+        5 => {
+            // the cheap large case: one data file and one image just above 1 MiB next to small ones
+            let mut img = png("big");
+            img.extend(blob(1024 * 1024 + 1, 8));
+            (vec![("a.txt", b"A".to_vec()), ("s1m1.bin", blob(1024 * 1024 + 1, 7))], vec![("big.png", img), ("i.png", png("i"))])
+        }
         _ => (
             vec![
                 ("a.txt", b"A".to_vec()),
@@ -65,6 +90,11 @@ pub fn store_set(id: u32) -> (Vec<(&'static str, Vec<u8>)>, Vec<(&'static str, V
             vec![("only.png", png("only")), ("Scan.Png", png("scan"))],
         ),
     }
+}
+
+/// deterministic bytes of a given length
+fn blob(len: usize, salt: usize) -> Vec<u8> {
+    (0..len).map(|i| ((i * 31 + salt * 7 + (i >> 11)) % 251) as u8).collect()
 }
 
 fn content(id: &str) -> Vec<u8> {
@@ -471,6 +501,32 @@ pub fn observe_ext(toks: &[&str], scratch: &Path, fresh: bool) -> String {
             _ => {}
         }
     }
+    if load {
+        // `sab=<d|i><index><x|r|t>.<..>`: store files deleted (x) / replaced by a directory (r) / truncated (t) on disk
+        // AFTER the load and BEFORE any access, any number of them
+        let (d, i) = store_set(stores);
+        for item in field(toks, "sab").split('.').filter(|x| x.len() >= 3) {
+            let kind = &item[..1];
+            let op = &item[item.len() - 1..];
+            let idx: usize = item[1..item.len() - 1].parse().unwrap_or(0);
+            let (dir, set) = if kind == "d" { ("data", &d) } else { ("images", &i) };
+            if let Some((key, _)) = set.get(idx) {
+                let p = src.join(dir).join(key);
+                match op {
+                    "x" => {
+                        let _ = std::fs::remove_file(&p);
+                    }
+                    "r" => {
+                        let _ = std::fs::remove_file(&p);
+                        let _ = std::fs::create_dir(&p);
+                    }
+                    _ => {
+                        let _ = std::fs::write(&p, b"");
+                    }
+                }
+            }
+        }
+    }
     if load && num(toks, "craft") == 5 {
         // the glyph is in memory now; remove the file so that re-creating it outside the target is visible
         let _ = std::fs::remove_file(src.parent().unwrap().join("esc.glif"));
@@ -522,11 +578,35 @@ pub fn observe_ext(toks: &[&str], scratch: &Path, fresh: bool) -> String {
     let spelled: PathBuf = match num(toks, "tsp") {
         1 => PathBuf::from(format!("{}/", target.display())),
         2 => target.parent().unwrap().join("..").join("m").join(target.file_name().unwrap()),
+        // round 6: through a symbolic link to the PARENT (the link lives outside the sandbox); relative to the parent
+        3 => {
+            let lnk = scratch.join("lnk");
+            rm_rf(&lnk);
+            std::os::unix::fs::symlink(target.parent().unwrap(), &lnk).unwrap();
+            lnk.join(target.file_name().unwrap())
+        }
+        4 => PathBuf::from(target.file_name().unwrap()),
         _ => target.clone(),
     };
+    let old_cwd = std::env::current_dir().ok();
+    if num(toks, "tsp") == 4 {
+        let _ = std::env::set_current_dir(target.parent().unwrap());
+    }
+    // `retry=<n>`: the caller tried the very same save n times before (whatever those did counts: PRE is older)
+    for _ in 0..num(toks, "retry") {
+        let _ = save_result_opt(&font, &spelled, num(toks, "wo"));
+    }
     // process history: an unrelated save that FAILS on this thread right before the observed one
     prior_failed_save(num(toks, "prior"), &scratch.join("prior.ufo"));
     let r = save_result_opt(&font, &spelled, num(toks, "wo"));
+    if num(toks, "tsp") == 4 {
+        if let Some(c) = &old_cwd {
+            let _ = std::env::set_current_dir(c);
+        }
+    }
+    if num(toks, "tsp") == 3 {
+        rm_rf(&scratch.join("lnk"));
+    }
     let post_tok = tree_token(&sb);
     let mut extra = String::new();
     if fresh {
@@ -778,6 +858,65 @@ pub fn gen(tier: &str, seed: u64, out: &mut dyn Write) {
     for craft in 14..=15 {
         for &pre in &[5u32, 0, 2] {
             emit(out, &scratch, &format!("rich=3 load=1 stores=1 sabot=0 kinds=0 pre={} craft={} e=", pre, craft));
+        }
+    }
+    // round 6: (1) k store files vanish / turn into directories / are truncated on disk after the load and before any
+    // access, saved elsewhere and in place (an error-state entry refuses the save before the wipe; a truncated data
+    // file is a valid empty one); (2) the same save retried after a refusal, error already cached; (3) in-place saves
+    // whose target is an ALIAS spelling of the load path; (4) size classes of lazily read files
+    for stores in 1..=2u32 {
+        let (d, i) = store_set(stores);
+        let (nd, ni) = (d.len(), i.len());
+        for op in ["x", "r", "t"] {
+            let all_d: Vec<String> = (0..nd).map(|k| format!("d{}{}", k, op)).collect();
+            let all_i: Vec<String> = (0..ni).map(|k| format!("i{}{}", k, op)).collect();
+            let sets = [
+                format!("d{}{}", nd - 1, op),
+                format!("i{}{}", ni - 1, op),
+                format!("d0{}.d{}{}", op, nd / 2, op),
+                format!("d1{}.i0{}", op, op),
+                all_d.join("."),
+                all_i.join("."),
+            ];
+            for &pre in &[0u32, 2, 5] {
+                for sab in &sets {
+                    emit(out, &scratch, &format!("rich={} load=1 stores={} sabot=0 kinds=0 pre={} sab={} e=", rng.below(32), stores, pre, sab));
+                }
+            }
+        }
+    }
+    for &pre in &[2u32, 5, 0] {
+        for retry in 1..=2 {
+            emit(out, &scratch, &format!("rich={} load=1 stores=1 sabot=0 kinds=0 pre={} sab=d0x retry={} e=", rng.below(32), pre, retry));
+            emit(out, &scratch, &format!("rich={} load=1 stores=2 sabot=0 kinds=0 pre={} sab=i1t retry={} e=", rng.below(32), pre, retry));
+            emit(out, &scratch, &format!("rich={} load=1 stores=1 sabot=1 kinds=0 pre={} retry={} e=", rng.below(32), pre, retry));
+            emit(out, &scratch, &format!("rich={} load=1 stores=1 sabot=5 kinds=0 pre={} retry={} e=", rng.below(32), pre, retry));
+            emit(out, &scratch, &format!("rich={} load=1 stores=2 sabot=0 kinds=0 pre={} retry={} e=", rng.below(32), pre, retry));
+        }
+    }
+    for tsp in 1..=4 {
+        for stores in 1..=3u32 {
+            emit(out, &scratch, &format!("rich={} load=1 stores={} sabot=0 kinds=0 pre=5 tsp={} e=", rng.below(32), stores, tsp));
+        }
+        let (d, _) = store_set(1);
+        emit(out, &scratch, &format!("rich={} load=1 stores=1 sabot=0 kinds=0 pre=5 tsp={} e=dg.{}", rng.below(32), tsp, hexs(d[0].0)));
+        emit(out, &scratch, &format!("rich={} load=1 stores=2 sabot=0 kinds=0 pre=5 tsp={} sab=d1x e=", rng.below(32), tsp));
+        emit(out, &scratch, &format!("rich={} load=1 stores=2 sabot=0 kinds=4 pre=5 tsp={} e=", rng.below(32), tsp));
+        emit(out, &scratch, &format!("rich={} load=1 stores=1 sabot=0 kinds=0 pre=2 tsp={} e=", rng.below(32), tsp));
+    }
+    {
+        let big = hexs("s1m1.bin");
+        emit(out, &scratch, "rich=3 load=1 stores=5 sabot=0 kinds=0 pre=5 e=");
+        emit(out, &scratch, &format!("rich=3 load=1 stores=5 sabot=0 kinds=0 pre=5 e=dg.{}", big));
+        emit(out, &scratch, "rich=3 load=1 stores=5 sabot=0 kinds=0 pre=0 e=");
+        emit(out, &scratch, "rich=3 load=1 stores=5 sabot=0 kinds=4 pre=5 e=");
+        emit(out, &scratch, "rich=0 load=1 stores=4 sabot=0 kinds=0 pre=5 e=");
+        if tier == "thorough" {
+            emit(out, &scratch, "rich=31 load=1 stores=4 sabot=0 kinds=0 pre=2 e=");
+            emit(out, &scratch, "rich=31 load=1 stores=4 sabot=0 kinds=0 pre=5 tsp=2 e=");
+            emit(out, &scratch, "rich=31 load=1 stores=4 sabot=0 kinds=0 pre=5 sab=d2x e=");
+            emit(out, &scratch, "rich=7 load=1 stores=5 sabot=0 kinds=0 pre=5 retry=1 e=");
+            emit(out, &scratch, &format!("rich=7 load=1 stores=4 sabot=0 kinds=0 pre=5 e=dg.{},dr.{}", hexs("s3m.bin"), hexs("s0.bin")));
         }
     }
     // in-place histories: tree -> load -> edits -> save onto the source
